@@ -4,6 +4,7 @@ import (
 	"encoding/json"
 	"fmt"
 	"reflect"
+	"sort"
 	"strings"
 	"time"
 
@@ -205,6 +206,50 @@ type histStats struct {
 	ops, failedOps, searchErr, parseErr, panics, edits, saltChanges, reuseAfterFail, sharedDocEdited, crossSalt int
 	steps                                                                                                       uint64
 	dirtyBufCandidates                                                                                          int
+	unorderedCompares                                                                                           int
+}
+
+// unordered returns a copy of v in which every array is sorted by its canonical JSON
+// text: equality of two such copies is equality up to the order of array elements.
+func unordered(v interface{}) interface{} { return unorderedD(v, 0) }
+
+func unorderedD(v interface{}, d int) interface{} {
+	if d > maxDepth {
+		return depthSentinel
+	}
+	switch x := v.(type) {
+	case []interface{}:
+		if x == nil {
+			return x
+		}
+		out := make([]interface{}, len(x))
+		keys := make([]string, len(x))
+		for i, e := range x {
+			out[i] = unorderedD(e, d+1)
+			b, _ := json.Marshal(out[i])
+			keys[i] = string(b)
+		}
+		idx := make([]int, len(x))
+		for i := range idx {
+			idx[i] = i
+		}
+		sort.SliceStable(idx, func(a, b int) bool { return keys[idx[a]] < keys[idx[b]] })
+		res := make([]interface{}, len(x))
+		for i, j := range idx {
+			res[i] = out[j]
+		}
+		return res
+	case map[string]interface{}:
+		if x == nil {
+			return x
+		}
+		m := make(map[string]interface{}, len(x))
+		for k, e := range x {
+			m[k] = unorderedD(e, d+1)
+		}
+		return m
+	}
+	return v
 }
 
 var hstats histStats
@@ -224,6 +269,7 @@ func runHistory(h *History) *RunReport {
 	refs := make([]ref, len(h.Ops))
 
 	// ---- phase 1: the stateless reference model, one pristine world per operation
+	progressPhase(1)
 	shadow := make([]interface{}, len(h.Docs))
 	for i, d := range h.Docs {
 		shadow[i] = d.Build()
@@ -254,12 +300,9 @@ func runHistory(h *History) *RunReport {
 			}
 			zzverifrt.MapOrder = mapOrderFn(refSalt, pol)
 			zzverifrt.ResetAll()
-			jp, err := jmespath.Compile(src)
-			if err != nil {
-				refs[i].compiled = Outcome{Kind: "error", ErrType: errType(err), ErrMsg: err.Error()}
-				if se, ok := err.(jmespath.SyntaxError); ok {
-					refs[i].compiled.Val = se
-				}
+			jp, co := safeCompile(src)
+			if jp == nil {
+				refs[i].compiled = co
 			} else {
 				refs[i].compiled, _ = execSearchObj(jp, docFor(op))
 			}
@@ -272,14 +315,20 @@ func runHistory(h *History) *RunReport {
 	}
 
 	// ---- phase 2: the long-lived objects, one world for the whole history
+	progressPhase(2)
+	defer progressPhase(3)
 	zzverifrt.ResetAll()
 	zzverifrt.MapOrder = mapOrderFn(h.MapSalt, h.MapPolicy)
 	salt, pol = h.MapSalt, h.MapPolicy
 	objs := make([]*jmespath.JMESPath, len(h.Compiled))
 	for j, ei := range h.Compiled {
-		jp, err := jmespath.Compile(h.Exprs[ei])
-		if err != nil {
-			panic("history compiles an expression that does not compile: " + h.Exprs[ei])
+		jp, co := safeCompile(h.Exprs[ei])
+		if jp == nil {
+			// it compiled when the history was generated (arbitrary package state) and
+			// does not in a freshly initialised package: Compile itself depends on history
+			rep.Violations = append(rep.Violations, Violation{Prop: "C13", Class: "compile-unstable", Sig: "compile",
+				Detail: fmt.Sprintf("Compile(%q) succeeded earlier in this process and gives %s in a freshly initialised package", h.Exprs[ei], co.String())})
+			return rep
 		}
 		objs[j] = jp
 	}
@@ -302,6 +351,7 @@ func runHistory(h *History) *RunReport {
 	}
 	var earlier []kept
 	lastFailed := map[string]bool{}
+	saltChanged := false
 	add := func(v Violation) { rep.Violations = append(rep.Violations, v) }
 
 	for i := range h.Ops {
@@ -312,6 +362,7 @@ func runHistory(h *History) *RunReport {
 			salt, pol = op.Salt, op.Policy
 			zzverifrt.MapOrder = mapOrderFn(salt, pol)
 			hstats.saltChanges++
+			saltChanged = true
 			continue
 		case "edit":
 			if h.Mode == "shared" {
@@ -369,12 +420,23 @@ func runHistory(h *History) *RunReport {
 				want = &r.oneshot
 				class, what = "oneshot-history", fmt.Sprintf("one-shot Search(%q)", src)
 			}
-			if !sameOutcome(&got, want) {
+			same := sameOutcome(&got, want)
+			if !same && saltChanged && orderSensitive(src) && got.Kind == "value" && want.Kind == "value" {
+				// the object was created under another member order than the one in force now:
+				// an implementation may legitimately have fixed an order earlier (constant
+				// folding, interning), so only the order-insensitive content is demanded
+				same = equalVal(unordered(got.Val), unordered(want.Val))
+				hstats.unorderedCompares++
+			}
+			if !same {
 				add(Violation{Prop: "C13", Class: class, Sig: op.Kind,
 					Detail: fmt.Sprintf("op %d of the history: %s on doc%d returned %s; a freshly created object returns %s", i, what, op.Doc, got.String(), want.String())})
 			}
 			if h.Mode == "fresh" && got.Kind == "value" {
 				earlier = append(earlier, kept{raw: raw, snap: got.Val, op: i})
+				if len(earlier) > 24 {
+					earlier = earlier[1:] // long histories: keep the check linear
+				}
 			}
 		case "parse":
 			src := h.Exprs[op.Expr]
@@ -605,8 +667,10 @@ func genHistory(master uint64, idx int) *History {
 			case y < 45:
 			case y < 85:
 				src, fault = corruptExpr(r, src)
-			default:
+			case y < 97:
 				src, fault = gen.BrokenExprs[r.Intn(len(gen.BrokenExprs))], "broken-list"
+			default:
+				src, fault = gen.DeepExprs[r.Intn(len(gen.DeepExprs))], "deep-nesting"
 			}
 			h.Ops = append(h.Ops, HOp{Kind: "parse", Obj: r.Intn(h.Parsers), Expr: addExpr(src), Fault: fault})
 		case x < 92:
@@ -675,6 +739,60 @@ func sweepHistories(idx int) *History {
 	return h
 }
 
+// genMarathon: one parser and up to three compiled expressions used for thousands of
+// operations, so that state which accumulates slowly (a leaked counter, a growing
+// buffer, a cache that fills up) has time to show.
+func genMarathon(master uint64, idx int) *History {
+	r := &gen.Rng{S: simrt.Mix(master^0x3a7a, uint64(idx))}
+	h := &History{Mode: "fresh", MapSalt: r.Next(), MapPolicy: r.Intn(3), Parsers: 1}
+	base := DocSpec{Kind: "json", Text: gen.Doc(r), CapSeed: r.Next() | 1}
+	h.Docs = []DocSpec{base, {Kind: "json", Text: corruptDoc(r, base.Text), CapSeed: r.Next() | 1}, {Kind: "json", Text: gen.Doc(r), CapSeed: r.Next() | 1}}
+	for len(h.Compiled) < 3 {
+		e := gen.Expr(r)
+		if r.Chance(1, 2) {
+			e = systematic[r.Intn(len(systematic))]
+		}
+		if compiles(e) {
+			h.Exprs = append(h.Exprs, e)
+			h.Compiled = append(h.Compiled, len(h.Exprs)-1)
+		}
+	}
+	n := 1500 + r.Intn(2500)
+	pick := func() string {
+		switch r.Intn(4) {
+		case 0:
+			return corpus[r.Intn(len(corpus))].Expr
+		case 1:
+			return systematic[r.Intn(len(systematic))]
+		case 2:
+			return gen.Chain(r)
+		}
+		return gen.Expr(r)
+	}
+	for len(h.Ops) < n {
+		switch x := r.Intn(100); {
+		case x < 25:
+			h.Ops = append(h.Ops, HOp{Kind: "search", Obj: r.Intn(len(h.Compiled)), Doc: r.Intn(len(h.Docs))})
+		case x < 30:
+			h.Ops = append(h.Ops, HOp{Kind: "oneshot", Expr: r.Intn(len(h.Compiled)), Doc: r.Intn(len(h.Docs))})
+		default:
+			src, fault := pick(), ""
+			switch y := r.Intn(100); {
+			case y < 35:
+			case y < 80:
+				src, fault = corruptExpr(r, src)
+			case y < 97:
+				src, fault = gen.BrokenExprs[r.Intn(len(gen.BrokenExprs))], "broken-list"
+			default:
+				src, fault = gen.DeepExprs[r.Intn(len(gen.DeepExprs))], "deep-nesting"
+			}
+			h.Exprs = append(h.Exprs, src)
+			h.Ops = append(h.Ops, HOp{Kind: "parse", Obj: 0, Expr: len(h.Exprs) - 1, Fault: fault})
+		}
+	}
+	return h
+}
+
 // ---------------------------------------------------------------- worker
 
 func histWorker(tier string, master uint64, from, to int, maxWall time.Duration, replayDir, stage string, perRun bool) *Stats {
@@ -698,10 +816,13 @@ func histWorker(tier string, master uint64, from, to int, maxWall time.Duration,
 				st.To = idx
 				break
 			}
+		} else if stage == "marathon" {
+			h = genMarathon(master, idx)
 		} else {
 			h = genHistory(master, idx)
 		}
 		before := hstats.failedOps
+		progressRun(idx)
 		rep := runHistory(h)
 		st.Runs++
 		st.ModeRuns[stage+h.Mode]++
@@ -759,6 +880,7 @@ func histWorker(tier string, master uint64, from, to int, maxWall time.Duration,
 	st.Probes["parser_reused_after_unterminated_raw_string_with_escaped_quote"] = uint64(hstats.dirtyBufCandidates)
 	st.Probes["order_free_expression_checked_across_two_map_orders"] = uint64(hstats.crossSalt)
 	st.Probes["history_dropped_because_search_modified_shared_doc"] = uint64(hstats.sharedDocEdited)
+	st.Probes["compared_up_to_member_order_after_map_order_change"] = uint64(hstats.unorderedCompares)
 	st.Ops["operations"] = hstats.ops
 	return st
 }
